@@ -12,7 +12,7 @@ RULE = ("Cases: (consistency) methods {hilbert,nht,quad} x sample rates {64..400
         "1-3 columns; (sinusoid) pure cosines with >=6 cycles per record, f <= sr/12, amplitude over 3 decades, start "
         "phase in [0,2pi); (lattice, enumerated) cosines with a whole number P of samples per cycle (12..60 quick, 12..240 thorough) and peaks on samples - for odd P every trough lies between two exactly equal samples - x 4 shifts x 3 amplitudes x methods, checked pointwise (quad: 10% IF, 2% IA, 0.05 rad); (roundtrip) frequency profiles {constant, ramp, sinusoidally modulated, random smooth} in 1-3 "
         "columns through phase_from_freq -> freq_from_phase; (scale) x -> c*x for c=2^k (|k|<=8) and real c in "
-        "[1e-3,1e3], plus amplitude_normalise sign/scale invariance; (stack) 3-D [samples x imfs x imfs2] input vs its 2-D slices; (reuse) one array object filled with two IMF sets in turn; (columns) 2-4 column sets, optionally with one non-oscillating column (constant / ramp / zero / single bump) and in C / column-major / strided layout, vs each column alone. Oracle: shapes; 0<=IP<=2pi (exact 2pi counted); "
+        "[1e-3,1e3], plus amplitude_normalise sign/scale invariance; (stack) 3-D [samples x imfs x imfs2] input - C-contiguous, column-major, an axis-swapped view or a strided view - vs its 2-D slices; (reuse) one array object filled with two IMF sets in turn; (columns) 2-4 column sets, optionally with one non-oscillating column (constant / ramp / zero / single bump) and in C / column-major / strided layout, vs each column alone. Oracle: shapes; 0<=IP<=2pi (exact 2pi counted); "
         "IF == sr*gradient(unwrap(IP))/2pi (1e-6 rel); interior-half medians |IF-f|/f, |IA-A|/A, circular |IP-truth| "
         "within calibrated tolerances (hilbert/nht also pointwise); roundtrip[i] == (f[i]+f[i+1])/2 inside, f[1], "
         "f[-1] at the ends (1e-9); IP/IF unchanged and IA scaled under c (1e-12 dyadic, 1e-6 real). Non-trivial: "
@@ -295,7 +295,22 @@ def stack_case(draw):
     return {'method': draw(st.sampled_from(METHODS)), 'sr': draw(st.sampled_from(RATES)), 'n': draw(st.integers(300, 1200)),
             'k': draw(st.integers(0, 2**32 - 1)), 'm': draw(st.integers(1, 3)), 'kk': draw(st.integers(2, 6)),
             'f_rel': draw(st.sampled_from([0.02, 0.04, 0.07])), 'am': draw(st.sampled_from([0.0, 0.3])),
-            'fm': draw(st.sampled_from([0.0, 0.8]))}
+            'fm': draw(st.sampled_from([0.0, 0.8])),
+            'layout': draw(st.sampled_from(['C', 'C', 'F', 'swapped', 'strided']))}
+
+
+def stack_layout(a, layout):
+    """The same 3-D values in another memory layout: column-major (what scipy.io.loadmat returns), a swapaxes view of a
+    C array stored [samples x imfs2 x imfs], or every second second-level IMF of a wider stack."""
+    if layout == 'F':
+        return np.asfortranarray(a)
+    if layout == 'swapped':
+        return np.ascontiguousarray(a.swapaxes(1, 2)).swapaxes(1, 2)
+    if layout == 'strided':
+        wide = np.zeros((a.shape[0], a.shape[1], 2 * a.shape[2]))
+        wide[:, :, ::2] = a
+        return wide[:, :, ::2]
+    return a.copy()
 
 
 def oracle_stack(case, rec):
@@ -311,7 +326,11 @@ def oracle_stack(case, rec):
             stack[:, i, j] = amfm(n, case['sr'], case['k'] + 17 * i + j, case['f_rel'] * (0.6 + 0.4 * ((i + j) % 3) / 2),
                                   case['am'], case['fm'], 1)[:n, 0] * (1 + i + 0.5 * j)
     meth = case['method']
-    IP, IF, IA = ft(emd, stack.copy(), case['sr'], meth, 'stack')
+    given = stack_layout(stack, case.get('layout', 'C'))
+    IP, IF, IA = ft(emd, given, case['sr'], meth, 'stack')
+    if not np.array_equal(given, stack):
+        raise Violation('C09/stack/input-modified/' + meth, '')
+    rec.cls('layout=' + case.get('layout', 'C'))
     for name, arr in (('IP', IP), ('IF', IF), ('IA', IA)):
         if np.asarray(arr).shape != stack.shape:
             raise Violation('C09/stack/shape/%s/%s' % (name, meth), '%r vs %r' % (np.asarray(arr).shape, stack.shape))
